@@ -578,6 +578,20 @@ def _rand_operand(rng, t, kind):
 
 def g_arith(ctx, rng, i):
     t = _rand_tensor(rng, [0, 2, 3, 4, 5, 6, 1, 7][i % 8])
+    if i % 5 == 3 and type(t).__name__ == "Tensor" and t.rank - t.free_indices >= 1 and t.free_indices == 0:
+        # a tensor whose free axis is not the leading one (what indexing with None / an integer array after a tensor axis returns)
+        r = t.rank
+        pos = int(rng.integers(1, r + 1))
+        ix = [slice(None)] * r
+        if rng.integers(0, 2) and pos < r:
+            ix[pos] = [0, 1, 0]
+            ix = ix[: pos + 1]
+        else:
+            ix.insert(pos, None)
+        try:
+            t = t[tuple(ix)]
+        except Exception:
+            pass
     o = _rand_operand(rng, t, (i // 8) % 8)
     fns = [lambda: t + o, lambda: o + t, lambda: t - o, lambda: o - t, lambda: -t, lambda: np.add(t, o), lambda: np.subtract(t, o), lambda: np.subtract(o, t),
            lambda: np.negative(t)]
